@@ -153,3 +153,34 @@ def reg2bin(beg, end, min_shift, depth):
         s += 3
         t -= 1 << level * 3
     return 0
+
+
+def encode_tbi(d, with_tail=True):
+    """own serialiser of a decoded tabix index (spec_decode_tbi layout)"""
+    names = b"".join(bytes.fromhex(h) + b"\0" for h in d["names"])
+    out = bytearray(b"TBI\x01")
+    hdr = list(d["header"])
+    hdr[0], hdr[7] = len(d["bins"]), len(names)
+    out += struct.pack("<8i", *hdr)
+    out += names
+    for bins, lin in zip(d["bins"], d["linear"]):
+        out += struct.pack("<i", len(bins))
+        for b, chunks in bins:
+            out += struct.pack("<Ii", b, len(chunks))
+            for beg, end in chunks:
+                out += struct.pack("<QQ", beg, end)
+        out += struct.pack("<i", len(lin))
+        for v in lin:
+            out += struct.pack("<Q", v)
+    if with_tail:
+        out += struct.pack("<Q", d.get("n_no_coor", 0))
+    return bytes(out)
+
+
+def strip_tbi_counts(vcf_path):
+    """rewrite <vcf>.tbi as an old-style index: no pseudo-bins (no per-contig record counts), no trailing n_no_coor"""
+    ipath = str(vcf_path) + ".tbi"
+    d = spec_decode_tbi(gunzip(ipath))
+    d["bins"] = [[b for b in ref if b[0] != 37450] for ref in d["bins"]]
+    write_gz(ipath, encode_tbi(d, with_tail=False), bgzf=True)
+    return ipath
